@@ -1,7 +1,7 @@
 """C13 — tracks and networks written to file are read back unchanged
 (tracklib/io/track_writer.py, track_reader.py, network_writer.py, network_reader.py, core/obs_time.py
 __str__/readTimestamp, core/track.py toWKT)."""
-import os, itertools, tempfile
+import os, itertools, tempfile, shutil
 from fractions import Fraction
 from engine import Prop
 
@@ -106,7 +106,10 @@ class P(Prop):
         (M, "TV.C13.written_precision_partial", "on the decimal lattice the printed coordinate and what float() reads denote the same number (format()'s rounding of arbitrary doubles not covered)"),
     ]
     partial = ["written_precision_partial: proves exact read-back on the 10^-d lattice; missing: Python's format()/float() rounding on arbitrary doubles (sampled: 'fix' stream, byte-for-byte file comparison, off-lattice tracks)"]
-    open_statements = ["the string-level find/replace loops of ObsTime.__str__ and __precompileReadFmt are modelled on the tokenised format (codes recognised left to right); "
+    open_statements = ["sessions (several operations sharing the global ObsTime formats) are not modelled as such: every round trip of a session is modelled "
+                       "independently with the session's format, and the oracle additionally requires every library call to leave the global read/print "
+                       "formats as it found them",
+                       "the string-level find/replace loops of ObsTime.__str__ and __precompileReadFmt are modelled on the tokenised format (codes recognised left to right); "
                        "equivalence with the string algorithm for formats whose literals are not code letters is checked by correspondence only",
                        "read_all feature columns are not modelled on the reader side (the writer never emits the header line that names them)"]
     modelled = ("TrackWriter.writeToFile (O list, sort, __printInOrder, float formats), TrackReader.__readFromCsv (data loop, header/comment "
@@ -119,12 +122,14 @@ class P(Prop):
                "csv.reader is modelled as its documented state machine (delimiter, doublequote); file system calls are trusted"]
     rule = ("exhaustive: every column layout (24+6+6+2 id permutations) x separators , ; blank x h in {0,1} x ENU/GEO/ECEF; random tracks of 1-6 fixes with "
             "negative / 1e6-large / many-decimal coordinates on and off the 1 mm / 1e-8 deg lattice, timestamps at midnight, month, year ends and leap days; "
-            "time formats; GPX write/read; networks of 1-4 edges, three orientations, 2-5 vertices; WKT. non-trivial = at least one non-zero coordinate "
+            "time formats; GPX write/read; networks of 1-4 edges, three orientations, 2-5 vertices; WKT; sessions of 2-4 operations (CSV, GPX to one file, GPX "
+            "to one file per track in a directory, network, WKT, timeWithZone, KML) sharing the global ObsTime formats set once at the start. non-trivial = at least one non-zero coordinate "
             "or a timestamp other than the epoch")
 
     # ------------------------------------------------------------------ setup
     def setup(self):
-        from tracklib.core import ObsTime, ENUCoords, GeoCoords, ECEFCoords, Obs, Track, Network, Node, Edge
+        from tracklib.core import ObsTime, ENUCoords, GeoCoords, ECEFCoords, Obs, Track, Network, Node, Edge, TrackCollection
+        self.TrackCollection = TrackCollection
         from tracklib.io import TrackWriter, TrackReader, NetworkWriter, NetworkReader, NetworkFormat
         self.ObsTime, self.Obs, self.Track = ObsTime, Obs, Track
         self.Coords = {"ENU": ENUCoords, "GEO": GeoCoords, "ECEF": ECEFCoords}
@@ -149,6 +154,9 @@ class P(Prop):
     def exhaustive_scopes(self, tier):
         return ["all 38 column layouts (id_E,id_N[,id_U][,id_T] a permutation of 0..k-1) x separators {',', ';', ' '} x h in {0,1} x {ENU, GEO, ECEF}, "
                 "%d random tracks each" % (2 if tier == "quick" else 8),
+                "sessions: every operation kind in {csv, gpx one file, gpx one file per track, network, wkt, timeWithZone, kml} (and, for the default and the ISO "
+                "format%s, every ordered pair of kinds) followed by a CSV round trip, under each of the %d session time formats" % (
+                    "" if tier == "quick" else " and all the others", len(CSV_FMTS)),
                 "fixed-point rendering {:10.3f}/{:20.10f}/{:3.8f} of every integer -2100..2100 and of 10^k-1, 10^k, 10^k+1 (k <= 12), both signs"]
 
     def rand_stamp(self, rng):
@@ -233,8 +241,65 @@ class P(Prop):
         return {"kind": "net", "srid": srid, "q": q, "sep": sep or rng.choice([",", ";", " ", "\t", "|"]), "h": h,
                 "hdrR": h if hdrR is None else hdrR, "posdir": 3, "edges": edges}
 
-    def cases(self, rng, tier):
+    # ---- sessions: several operations sharing the global ObsTime formats
+    def session_op(self, rng, kind, fmt):
+        L = self.layouts()
+        if kind == "csv":
+            ids = rng.choice([l for l in L if l["T"] != -1] * 3 + L)
+            c = self.csv_case(rng, ids, rng.choice([",", ";", "|", "\t"]), 0, rng.choice(SRIDS), q=rng.choice(["lat", "lat", None]),
+                              pfmt=fmt, naf=rng.choice([0, 0, 1]), n=rng.choice([1, 2, 3]))
+            return c
+        if kind == "gpx":
+            rows, q = self.rand_rows(rng, "GEO", n=rng.choice([1, 2, 3]), q=8)
+            return {"kind": "gpx", "srid": "GEO", "q": q, "rows": rows, "rfmt": rng.choice([ISO_FMT, ISO_FMT + "Z"]), "tid": rng.choice([0, 5, "g"])}
+        if kind == "gpxdir":
+            tids = rng.sample(["a", "b", "c", 11, 12], rng.choice([1, 2, 2, 3]))
+            tracks = []
+            for tid in tids:
+                rows, q = self.rand_rows(rng, "GEO", n=rng.choice([1, 2, 3]), q=8)
+                tracks.append({"tid": tid, "rows": rows})
+            return {"kind": "gpxdir", "srid": "GEO", "q": 8, "tracks": tracks, "rfmt": rng.choice([ISO_FMT, ISO_FMT + "Z"])}
+        if kind == "net":
+            return self.net_case(rng, sep=rng.choice([",", ";"]), h=1)
+        if kind == "wkt":
+            srid = rng.choice(["ENU", "GEO"])
+            q = 3 if srid == "ENU" else 8
+            pts = []
+            while len(pts) < 2:
+                p = [self.rand_coord(rng, srid, 0, q), self.rand_coord(rng, srid, 1, q)]
+                if all(v == 0 or abs(v) >= 10 ** (q - 4) for v in p):
+                    pts.append(p)
+            return {"kind": "wkt", "srid": srid, "q": q, "pts": pts}
+        if kind == "tz":
+            return {"kind": "tz", "t": self.rand_stamp(rng)}
+        if kind == "kml":
+            srid = rng.choice(["ENU", "GEO"])
+            rows, q = self.rand_rows(rng, srid, n=2)
+            return {"kind": "kml", "srid": srid, "q": q, "rows": rows, "type": rng.choice(["LINE", "POINT"])}
+        raise ValueError(kind)
+
+    SESSION_OPS = ["csv", "gpx", "gpxdir", "net", "wkt", "tz", "kml"]
+
+    def session_cases(self, rng, tier):
         out = []
+        # exhaustive: every operation kind (and every pair of kinds) followed by a CSV round trip with a time column,
+        # under every session time format
+        for fmt in CSV_FMTS:
+            for k1 in self.SESSION_OPS:
+                out.append({"kind": "session", "fmt": fmt, "ops": [self.session_op(rng, k1, fmt), self.session_op(rng, "csv", fmt)]})
+                for k2 in self.SESSION_OPS:
+                    if tier == "thorough" or fmt in (DEFAULT_FMT, ISO_FMT):
+                        out.append({"kind": "session", "fmt": fmt,
+                                    "ops": [self.session_op(rng, k1, fmt), self.session_op(rng, k2, fmt), self.session_op(rng, "csv", fmt)]})
+        for _ in range(600 if tier != "thorough" else 6000):
+            fmt = rng.choice(CSV_FMTS)
+            n = rng.choice([2, 3, 4])
+            ops = [self.session_op(rng, rng.choice(self.SESSION_OPS + ["csv", "gpxdir"]), fmt) for _ in range(n)]
+            out.append({"kind": "session", "fmt": fmt, "ops": ops})
+        return out
+
+    def cases(self, rng, tier):
+        out = self.session_cases(rng, tier)
         thorough = tier == "thorough"
         # --- fixed-point contract
         ns = list(range(-2100, 2101))
@@ -336,6 +401,9 @@ class P(Prop):
             t["srid"] = case["srid"]
         if k == "time":
             t["fmt"] = case["pfmt"]
+        if k == "session":
+            t["ops"] = "-".join(o["kind"] for o in case["ops"])
+            t["fmt"] = case["fmt"]
         return t
 
     def nontrivial(self, case):
@@ -350,6 +418,10 @@ class P(Prop):
             return any(any(any(p) for p in e["geom"]) for e in case["edges"])
         if k == "wkt":
             return any(any(p) for p in case["pts"])
+        if k == "session":
+            return any(self.nontrivial(o) for o in case["ops"])
+        if k == "gpxdir":
+            return True
         return True
 
     # ------------------------------------------------------------------ implementation
@@ -374,13 +446,102 @@ class P(Prop):
                         t.year, t.month, t.day, t.hour, t.min, t.sec, t.ms])
         return out
 
+    ambient = False      # session mode: the global ObsTime formats are those of the session, never set per operation
+    leaks = None         # session mode: list of (call, kind of format, before, after) for library calls that changed a global format
+
+    def lib(self, name, fn, *a, **k):
+        """a tracklib call; in a session the global read/print formats are compared before and after it"""
+        T = self.ObsTime
+        before = (T.getReadFormat(), T.getPrintFormat())
+        try:
+            return fn(*a, **k)
+        finally:
+            after = (T.getReadFormat(), T.getPrintFormat())
+            if self.leaks is not None:
+                for what, b, c in (("read", before[0], after[0]), ("print", before[1], after[1])):
+                    if b != c:
+                        self.leaks.append([name, what, b, c])
+
     def impl(self, case):
         T = self.ObsTime
         save = (T.getReadFormat(), T.getPrintFormat())
         try:
             return getattr(self, "impl_" + case["kind"])(case)
         finally:
+            self.ambient, self.leaks = False, None
             T.setReadFormat(save[0]); T.setPrintFormat(save[1])
+
+    def impl_session(self, case):
+        """2-4 operations in one process sharing the global ObsTime formats, which are set ONCE, at the start"""
+        T = self.ObsTime
+        T.setPrintFormat(case["fmt"]); T.setReadFormat(case["fmt"])
+        self.ambient = True
+        outs = []
+        for op in case["ops"]:
+            self.leaks = []
+            try:
+                o = getattr(self, "impl_" + op["kind"])(op)
+            except BaseException as e:
+                if isinstance(e, KeyboardInterrupt):
+                    raise
+                o = {"err": self.ekind(e), "detail": str(e)[:200]}
+            o["leaks"] = self.leaks
+            o["fmt_after"] = [T.getReadFormat(), T.getPrintFormat()]
+            outs.append(o)
+        return {"ops": outs}
+
+    def impl_tz(self, case):
+        t = case["t"]
+        s = self.lib("ObsTime.timeWithZone", self.ObsTime(t[0], t[1], t[2], t[3], t[4], t[5], t[6]).timeWithZone)
+        return {"text": s}
+
+    def impl_kml(self, case):
+        trk = self.mk_track(case["srid"], case["rows"], case["q"])
+        path = self.tmpfile("kml")
+        try:
+            self.lib("TrackWriter.writeToKml", self.TW.writeToKml, trk, path, type=case["type"])
+            return {"written": os.path.exists(path)}
+        finally:
+            if os.path.exists(path):
+                os.remove(path)
+
+    def impl_gpxdir(self, case):
+        """writeToGpx(collection, <existing directory>, oneFile=False): one file <tid>.gpx per track"""
+        T = self.ObsTime
+        coll = self.TrackCollection()
+        for tr in case["tracks"]:
+            trk = self.mk_track(case["srid"], tr["rows"], case["q"])
+            trk.tid = tr["tid"]
+            coll.addTrack(trk)
+        d = tempfile.mkdtemp(prefix="c13d_")
+        try:
+            self.lib("TrackWriter.writeToGpx(oneFile=False)", self.TW.writeToGpx, coll, d, af=False, oneFile=False)
+            files = []
+            for tr in case["tracks"]:
+                path = os.path.join(d, str(tr["tid"]) + ".gpx")
+                with open(path, newline="") as fh:
+                    text = fh.read()
+                head, _, body = text.partition("    <trk>\n")
+                keep = T.getReadFormat()
+                T.setReadFormat(case["rfmt"])        # the caller's way of reading a GPX file
+                try:
+                    back = self.lib("TrackReader.readFromGpx", self.TR.readFromGpx, path, srid=case["srid"])
+                    read = [self.obs_rows(back[i]) for i in range(back.size())]
+                except Exception as e:
+                    read = self.ekind(e)
+                finally:
+                    T.setReadFormat(keep)
+                files.append({"text": "    <trk>\n" + body, "head_ok": self.gpx_head_ok(head), "read": read})
+            return {"files": files, "nfiles": len(os.listdir(d))}
+        finally:
+            shutil.rmtree(d, True)
+
+    @staticmethod
+    def gpx_head_ok(head):
+        hl = head.split("\n")
+        return (hl[:4] == ['<?xml version="1.0" encoding="UTF-8"?>', "<gpx>", "<metadata>",
+                           "<author>File generated by Tracklib: https://github.com/umrlastig/tracklib</author>"]
+                and len(hl) == 6 and hl[4].startswith("<time>") and hl[4].endswith("</time></metadata>") and hl[5] == "")
 
     def impl_fix(self, case):
         f = "{:%d.%df}" % (case["w"], case["d"])
@@ -405,7 +566,8 @@ class P(Prop):
     def impl_csv(self, case):
         T = self.ObsTime
         ids = case["ids"]
-        T.setPrintFormat(case["pfmt"])
+        if not self.ambient:
+            T.setPrintFormat(case["pfmt"])
         trk = self.mk_track(case["srid"], case["rows"], case["q"])
         names = case.get("af_names", [])
         for j, nm in enumerate(names):
@@ -416,16 +578,17 @@ class P(Prop):
         try:
             try:
                 if names:
-                    self.TW.writeToFile(trk, path, ids["E"], ids["N"], ids["U"], ids["T"], case["sep"], case["h"], names)
+                    self.lib("TrackWriter.writeToFile", self.TW.writeToFile, trk, path, ids["E"], ids["N"], ids["U"], ids["T"], case["sep"], case["h"], names)
                 else:
-                    self.TW.writeToFile(trk, path, ids["E"], ids["N"], ids["U"], ids["T"], case["sep"], case["h"])
+                    self.lib("TrackWriter.writeToFile", self.TW.writeToFile, trk, path, ids["E"], ids["N"], ids["U"], ids["T"], case["sep"], case["h"])
             except Exception as e:
                 return {"werr": self.ekind(e)}
             with open(path, newline="") as fh:
                 text = fh.read()
-            T.setReadFormat(case["rfmt"])
+            if not self.ambient:
+                T.setReadFormat(case["rfmt"])
             try:
-                back = self.TR.readFromCsv(path, ids["E"], ids["N"], ids["U"], ids["T"], case["sep"], h=case["hdrR"], srid=case["srid"])
+                back = self.lib("TrackReader.readFromCsv", self.TR.readFromCsv, path, ids["E"], ids["N"], ids["U"], ids["T"], case["sep"], h=case["hdrR"], srid=case["srid"])
                 return {"text": text, "read": self.obs_rows(back)}
             except Exception as e:
                 return {"text": text, "read": self.ekind(e)}
@@ -435,26 +598,29 @@ class P(Prop):
 
     def impl_gpx(self, case):
         T = self.ObsTime
-        T.setPrintFormat(DEFAULT_FMT)
+        if not self.ambient:
+            T.setPrintFormat(DEFAULT_FMT)
+        pf0 = T.getPrintFormat()
         trk = self.mk_track(case["srid"], case["rows"], case["q"])
         trk.tid = case["tid"]
         path = self.tmpfile("gpx")
         try:
-            self.TW.writeToGpx(trk, path)
+            self.lib("TrackWriter.writeToGpx", self.TW.writeToGpx, trk, path)
             with open(path, newline="") as fh:
                 text = fh.read()
             head, _, body = text.partition("    <trk>\n")
-            hl = head.split("\n")
-            head_ok = (hl[:4] == ['<?xml version="1.0" encoding="UTF-8"?>', "<gpx>", "<metadata>",
-                                  "<author>File generated by Tracklib: https://github.com/umrlastig/tracklib</author>"]
-                       and len(hl) == 6 and hl[4].startswith("<time>") and hl[4].endswith("</time></metadata>") and hl[5] == "")
-            T.setReadFormat(case["rfmt"])
+            head_ok = self.gpx_head_ok(head)
+            keep = T.getReadFormat()
+            T.setReadFormat(case["rfmt"])            # the caller's way of reading a GPX file
             try:
-                coll = self.TR.readFromGpx(path, srid=case["srid"])
+                coll = self.lib("TrackReader.readFromGpx", self.TR.readFromGpx, path, srid=case["srid"])
                 read = [self.obs_rows(coll[i]) for i in range(coll.size())]
             except Exception as e:
                 read = self.ekind(e)
-            return {"text": "    <trk>\n" + body, "head_ok": head_ok, "read": read, "print_fmt_restored": T.getPrintFormat() == DEFAULT_FMT}
+            finally:
+                if self.ambient:
+                    T.setReadFormat(keep)
+            return {"text": "    <trk>\n" + body, "head_ok": head_ok, "read": read, "print_fmt_restored": T.getPrintFormat() == pf0}
         finally:
             if os.path.exists(path):
                 os.remove(path)
@@ -472,13 +638,13 @@ class P(Prop):
                         self.Node(e["tgt"], C(cval(g[-1][0], q), cval(g[-1][1], q), 0.0)))
         path = self.tmpfile("csv")
         try:
-            ret = self.NW.writeToCsv(net, path, separator=case["sep"], h=case["h"])
+            ret = self.lib("NetworkWriter.writeToCsv", self.NW.writeToCsv, net, path, separator=case["sep"], h=case["h"])
             with open(path, newline="") as fh:
                 text = fh.read()
             fmt = self.NF({"pos_edge_id": 0, "pos_source": 1, "pos_target": 2, "pos_direction": case["posdir"], "pos_wkt": 4,
                            "separator": case["sep"], "header": case["hdrR"], "srid": case["srid"]})
             try:
-                back = self.NR.readFromFile(path, fmt, verbose=False)
+                back = self.lib("NetworkReader.readFromFile", self.NR.readFromFile, path, fmt, verbose=False)
                 edges = []
                 for ed in back.EDGES.values():
                     edges.append({"id": ed.id, "src": ed.source.id, "tgt": ed.target.id, "orient": ed.orientation,
@@ -496,9 +662,9 @@ class P(Prop):
         q = case["q"]
         C = self.Coords[case["srid"]]
         trk = self.Track([self.Obs(C(cval(p[0], q), cval(p[1], q), 0.0), self.ObsTime()) for p in case["pts"]])
-        text = trk.toWKT()
+        text = self.lib("Track.toWKT", trk.toWKT)
         try:
-            back = self.TR.parseWkt(text)
+            back = self.lib("TrackReader.parseWkt", self.TR.parseWkt, text)
             read = [[float(o.position.getX()), float(o.position.getY()), float(o.position.getZ())] for o in back]
         except Exception as e:
             read = self.ekind(e)
@@ -511,6 +677,13 @@ class P(Prop):
 
     def requests(self, case):
         k = case["kind"]
+        if k == "session":
+            return [l for op in case["ops"] for l in self.requests(op)]
+        if k in ("tz", "kml"):
+            return []
+        if k == "gpxdir":
+            return ["C13.gpx 1 %s %s %s" % (hx(case["rfmt"]), hx(str(tr["tid"])), ";".join(self.row_tok(r, case["q"], 8) for r in tr["rows"]))
+                    for tr in case["tracks"]]
         if k == "fix":
             return ["C13.fix %d %d %d" % (case["w"], case["d"], n) for n in case["ns"]]
         if k == "time":
@@ -558,6 +731,17 @@ class P(Prop):
         k = case["kind"]
         if any(r == "bad-request" for r in replies):
             raise ValueError("bad-request")
+        if k == "session":
+            outs, i = [], 0
+            for op in case["ops"]:
+                n = len(self.requests(op))
+                outs.append(self.decode(op, replies[i:i + n]))
+                i += n
+            return {"ops": outs}
+        if k in ("tz", "kml"):
+            return {}
+        if k == "gpxdir":
+            return {"files": [self.decode({"kind": "gpx"}, [r]) for r in replies]}
         if k == "fix":
             out = []
             for r in replies:
@@ -597,6 +781,22 @@ class P(Prop):
 
     def compare(self, case, impl_out, model_out):
         k = case["kind"]
+        if k == "session" and "err" not in impl_out:
+            for i, (op, io, mo) in enumerate(zip(case["ops"], impl_out["ops"], model_out["ops"])):
+                m = self.compare(op, io, mo)
+                if m:
+                    return "operation %d (%s): %s" % (i, op["kind"], m)
+            return None
+        if k in ("tz", "kml") and "err" not in impl_out:
+            return None
+        if k == "gpxdir" and "err" not in impl_out:
+            if len(impl_out["files"]) != len(model_out["files"]):
+                return "number of files"
+            for tr, fi, fm in zip(case["tracks"], impl_out["files"], model_out["files"]):
+                m = self.compare({"kind": "gpx"}, fi, fm)
+                if m:
+                    return "file %s.gpx: %s" % (tr["tid"], m)
+            return None
         if "err" in impl_out:
             return "implementation raised %s outside the write/read calls: %s" % (impl_out["err"], impl_out.get("detail"))
         if k in ("fix", "time"):
@@ -664,6 +864,40 @@ class P(Prop):
         k = case["kind"]
         if "err" in out:
             return "raised %s (%s)" % (out["err"], out.get("detail"))
+        if k == "session":
+            # every round trip of the session must hold with the formats the session started with, and no library call may
+            # leave the global read / print formats changed ("read back with the matching format" relies on it)
+            leak = None
+            for i, (op, o) in enumerate(zip(case["ops"], out["ops"])):
+                tag = "session %r, operation %d (%s)" % (case["fmt"], i, op["kind"])
+                if "err" in o:
+                    return "%s raised %s (%s)%s" % (tag, o["err"], o.get("detail"), leak or "")
+                m = self.spec(op, o)
+                if m:
+                    return "%s: %s%s" % (tag, m, leak or "")
+                if leak is None:
+                    for name, what, b, c in o["leaks"]:
+                        leak = " [operation %d (%s): %s left the global ObsTime %s format changed from %r to %r]" % (i, op["kind"], name, what, b, c)
+                        break
+                    if leak is None and o["fmt_after"] != [case["fmt"], case["fmt"]]:
+                        leak = " [after operation %d (%s) the global ObsTime formats are %s, the session uses %r]" % (i, op["kind"], o["fmt_after"], case["fmt"])
+            if leak:
+                return "session %r:%s" % (case["fmt"], leak)
+            return None
+        if k in ("tz", "kml"):
+            return None
+        if k == "gpxdir":
+            if out["nfiles"] != len(case["tracks"]):
+                return "GPX directory: %d tracks written, %d files found" % (len(case["tracks"]), out["nfiles"])
+            for tr, fo in zip(case["tracks"], out["files"]):
+                if isinstance(fo["read"], str):
+                    return "GPX %s.gpx: reading the written file raised %s" % (tr["tid"], fo["read"])
+                if len(fo["read"]) != 1:
+                    return "GPX %s.gpx: one track written, %d read back" % (tr["tid"], len(fo["read"]))
+                m = self.check_rows(tr["rows"], fo["read"][0], case["q"], case["srid"], "gpx", True, True, "GPX %s.gpx" % tr["tid"])
+                if m:
+                    return m
+            return None
         if k == "fix":
             for n, (s, back) in zip(case["ns"], out["out"]):
                 if back != float(Fraction(n, 10 ** case["d"])) or len(s) < case["w"]:
@@ -752,6 +986,28 @@ class P(Prop):
     # ------------------------------------------------------------------ shrinking / search
     def shrink(self, case):
         k = case["kind"]
+        if k == "session":
+            ops = case["ops"]
+            if len(ops) > 1:
+                # the last operation is kept: it is the round trip that shows the effect of what precedes it
+                for i in range(len(ops) - 1):
+                    yield dict(case, ops=ops[:i] + ops[i + 1:])
+            def stamps(o):
+                return {tuple(r[3:10]) for r in o.get("rows", [])}
+            for i, op in enumerate(ops):
+                for sm in self.shrink(op):
+                    if i == len(ops) - 1 and not stamps(sm) <= stamps(op):
+                        continue        # the timestamps of the final round trip are what a leaked format corrupts: keep them
+                    yield dict(case, ops=ops[:i] + [sm] + ops[i + 1:])
+            return
+        if k == "gpxdir":
+            if len(case["tracks"]) > 1:
+                for i in range(len(case["tracks"])):
+                    yield dict(case, tracks=case["tracks"][:i] + case["tracks"][i + 1:])
+            for i, tr in enumerate(case["tracks"]):
+                if len(tr["rows"]) > 1:
+                    yield dict(case, tracks=case["tracks"][:i] + [dict(tr, rows=tr["rows"][:1])] + case["tracks"][i + 1:])
+            return
         if k in ("csv", "gpx") and len(case["rows"]) > 1:
             for i in range(len(case["rows"])):
                 c = dict(case, rows=case["rows"][:i] + case["rows"][i + 1:])
